@@ -15,6 +15,7 @@ import (
 func (e *Engine) newFV(fn *ssa.Function, con *Contract, mode Mode) *FV {
 	v := &FV{eng: e, top: fn, con: con, mode: mode, preSeen: map[string]bool{}, arrays: map[string]string{}, refArrays: map[string]bool{}, stableArrays: map[string]bool{}, freshSet: map[string]bool{}, sliceArr: map[string]Term{}, assumed: map[string]bool{}, trusted: map[string]bool{},
 		oblNames: map[string]int{}, strLits: map[string]Term{}, kindCount: map[string]int{}}
+	v.useClock = con != nil && con.Clock
 	v.n0 = "N0!"
 	v.pre("n0", "(declare-const N0! Int)")
 	v.pre("n0pos", "(assert (> N0! 0))")
@@ -189,6 +190,12 @@ func (e *Engine) VerifyFunction(fn *ssa.Function, con *Contract) (v *FV) {
 			v.specError(Clause{File: sd.File, Line: sd.Line, Text: sd.Invariant}, err)
 		}
 	}
+	if v.useClock {
+		// logical time starts somewhere below 2^62 (it only ever counts the calls of one execution)
+		v.regArray("CLOCK", fmt.Sprintf("(Array Int %s)", v.idx()))
+		c0 := v.rd(st.snap, "CLOCK", "0")
+		v.assume("true", fmt.Sprintf("(and (%s %s %s) (%s %s %s))", v.cmpOp("<=", true), v.idxLit(0), c0, v.cmpOp("<", true), c0, v.idxLit(1<<62)))
+	}
 	env := v.exprEnv(fr, st, "requires of "+con.Key)
 	for _, c := range con.Requires {
 		t, err := env.EvalBool(c.Text)
@@ -323,7 +330,7 @@ func (v *FV) frameCheck(fr *Frame, st *State, con *Contract, vars map[string]TV,
 	sort.Strings(names)
 	k := v.declare("frame_k", "Int")
 	for _, a := range names {
-		if strings.HasPrefix(a, "RV_") || strings.HasSuffix(a, "$n") || a == "TOP" || a == "CALLS" || a == "ARGNN" || a == "ARGV" || a == "LOCKED" {
+		if strings.HasPrefix(a, "RV_") || strings.HasSuffix(a, "$n") || a == "TOP" || a == "CALLS" || a == "ARGNN" || a == "ARGV" || a == "LOCKED" || a == "CLOCK" {
 			continue // ghost iteration state of range loops; arrays of objects allocated here
 		}
 		// locals allocated by the function itself are > N0 and invisible to the caller
